@@ -10,7 +10,7 @@ use serde_json::{json, Value};
 pub struct P;
 pub static C04: P = P;
 
-pub const WORDS: [&str; 14] = ["a", "bb", "ccc", "dddd", "ee\u{301}eee", "ffffff", "ggggggg", "中", "x中", "中y", "中中", "e\u{301}", "中中\u{301}中中", "\u{301}z"];
+pub const WORDS: [&str; 14] = ["a", "bb", "ccc", "\u{301}", "ee\u{301}eee", "ffffff", "ggggggg", "中", "x中", "中y", "中中", "e\u{301}", "中中\u{301}中中", "\u{301}z"];
 const NVARIANTS: usize = 7;
 
 /// Reference greedy wrapper.  `words` are non-empty, whitespace-free.  Err = a character
